@@ -65,6 +65,10 @@ CHECKS["C15"] = ("§5 C15", "Well-formed sys.settrace event streams generated fr
 CHECKS["C14"] = ("§5 C14", "Histories of 2-3 (thorough 3-4) start/shutdown calls on the real Deep / TriggerHandler / LongPoll with recording stand-ins for sys, threading, "
     "the timer, the poll stub, grpc, plugins and the task handler: hooks installed once per start and restored exactly (untouched under NO_TRACE), one running timer while "
     "started and none after, delivery drained and every plugin shut down exactly once per shutdown under any failure subset, started flag truthful. Enumerated by the solver.")
+CHECKS["C20"] = ("§5 C20", "The real load_plugins over three custom plugin classes (importable / missing / constructor raises, activation by configuration text, "
+    "UNBOUNDED symbolic order values incl. ties) against 'importable and constructible and active, stably sorted'; and fault isolation: two plugins of each of 5 types, one or both "
+    "failing in each of 7 callbacks (resource, decorate, log, create_span, close, metric, shutdown) through the real Deep.start / handler / Deep.shutdown - the healthy "
+    "plugin's calls, the delivered snapshot and its decorations, span closing and shutdown attempts are all preserved.")
 PENDING = {}
 
 def main():
